@@ -220,8 +220,8 @@ func less(c *mon.Case, r *rand.Rand, w int) {
 
 func main() {
 	mon.Main(mon.Spec{
-		Prop: "C10",
-		Rule: "case = one operation (add/lsh/rsh/mul/div/nand/less) on constants: operation width from the boundary set (quick) or every 1..255 (thorough), operand widths <,=,> the operation width, values from boundary byte patterns, shift amounts {0,1,7,8,9,8w-1,8w,8w+1,2^16,2^64,>2^64,random}, divisors {0, nonzero truncating to 0, 1, all-ones}; non-trivial = operand widths differ from the operation width, or shift >= 8, or divisor truncating to zero, or a comparison; distinct by operands",
+		Prop:        "C10",
+		Rule:        "case = one operation (add/lsh/rsh/mul/div/nand/less) on constants: operation width from the boundary set (quick) or every 1..255 (thorough), operand widths <,=,> the operation width, values from boundary byte patterns, shift amounts {0,1,7,8,9,8w-1,8w,8w+1,2^16,2^64,>2^64,random}, divisors {0, nonzero truncating to 0, 1, all-ones}; non-trivial = operand widths differ from the operation width, or shift >= 8, or divisor truncating to zero, or a comparison; distinct by operands",
 		Explanation: "oracle: math/big computation of the documented width rules (zero-extend/truncate operands, result modulo 2^(8w), shift >= 8w gives 0, x/0 = all ones, unsigned compare); the product's ConstFold must return one constant of the operation width with exactly that value, also when the same expression is folded a second time and when one constant object is both operands; operand constants must be byte-identical afterwards",
 		Assumptions: []string{"math/big", "refir.BinOp transcription of the documented rules"},
 		Cases: func(t string) int {
